@@ -128,7 +128,7 @@ impl Engine for Conc {
     fn decode(&self, s: &str) -> Case {
         Case::from_hex(s.trim())
     }
-    fn regressions(&self, prop: &str) -> Vec<String> {
+    fn regressions(&self, prop: &str) -> Vec<(String, Option<String>)> {
         let mut v = Vec::new();
         let dir = PathBuf::from(driver::VERIF).join("regressions").join("conc");
         if let Ok(rd) = std::fs::read_dir(&dir) {
@@ -140,7 +140,7 @@ impl Engine for Conc {
                     if let Ok(s) = std::fs::read_to_string(&f) {
                         if let Ok(j) = serde_json::from_str::<serde_json::Value>(&s) {
                             if let Some(c) = j["case"].as_str() {
-                                v.push(c.to_string());
+                                v.push((c.to_string(), j["profile"].as_str().map(|s| s.to_string())));
                             }
                         }
                     }
